@@ -1,0 +1,21 @@
+//go:build verif
+
+// Contracts for the deductive checks under /verif (comment-only; compiled only with -tags verif).
+
+package filters
+
+// The header bloom check passes exactly when some filter address is in the bloom (or no address
+// is given) and, for every topic position, some alternative is in the bloom (or the position is a
+// wildcard): in particular a block whose bloom contains a matching log's address and topics is
+// never skipped (no false negative of the header scan relative to the bloom). The converse for
+// topics (a pass implies every position hit) is not claimed: blooms admit false positives anyway.
+//@ macro addrhit(bloom, addresses) = len(addresses) == 0 || (exists k int :: {bloomhasaddr(bloom, addresses[k])} 0 <= k && k < len(addresses) && bloomhasaddr(bloom, addresses[k]))
+//@ macro tophit(bloom, sub) = len(sub) == 0 || (exists t int :: {bloomhashash(bloom, sub[t])} 0 <= t && t < len(sub) && bloomhashash(bloom, sub[t]))
+//@ func bloomFilter
+//@   ensures[C16] @sound result ==> addrhit(bloom, addresses)
+//@   ensures[C16] @complete addrhit(bloom, addresses) && (forall s int :: 0 <= s && s < len(topics) ==> tophit(bloom, topics[s])) ==> result
+//@   loop 1 invariant[C16] 0 <= $k && $k <= len(addresses) && !included && (forall j int :: {bloomhasaddr(bloom, addresses[j])} 0 <= j && j < $k ==> !bloomhasaddr(bloom, addresses[j]))
+//@   loop 2 invariant[C16] 0 <= $k && $k <= len(topics)
+//@   loop 3 invariant[C16] 0 <= $k && $k <= len(sub) && included == (len(sub) == 0) && (forall j int :: {bloomhashash(bloom, sub[j])} 0 <= j && j < $k ==> !bloomhashash(bloom, sub[j]))
+//@   assigns nothing
+//@   nopanic[C16]
